@@ -120,10 +120,25 @@ def scan (argv : List String) : Except ArgErr Scan := scanGo (argv.length + 1) a
 
 /-! ### value conversion -/
 
-/-- click `FLOAT`: python `float(text)` on the plain decimal grammar -/
-def convFloat (s : String) : Option Rat := Cif.parseFloat s
-/-- click `INT`: python `int(text)` (optional sign, decimal digits) -/
-def convInt (s : String) : Option Int := Lmp.readInt s
+/-- single underscores between two digits are dropped (python numeric literals in `float()` / `int()`); an underscore
+    anywhere else makes the text invalid.  `prevDigit` = the previous character was a digit. -/
+def dropUnderscores (prevDigit : Bool) : List Char → Option (List Char)
+  | [] => some []
+  | c :: rest =>
+    if c = '_' then
+      match rest with
+      | n :: _ => if prevDigit && n.isDigit then dropUnderscores false rest else none
+      | [] => none
+    else (dropUnderscores c.isDigit rest).map (c :: ·)
+
+/-- what python's `float()` / `int()` do to the text before reading the number: surrounding blanks are ignored,
+    digit-separating underscores are dropped -/
+def normNum (l : List Char) : Option (List Char) := dropUnderscores false (Lmp.strip l)
+
+/-- click `FLOAT`: python `float(text)` — blanks around it, `_` between digits, then the plain decimal grammar -/
+def convFloat (s : String) : Option Rat := (normNum s.toList).bind Cif.parseFloatL
+/-- click `INT`: python `int(text)` (blanks around it, `_` between digits, optional sign, decimal digits) -/
+def convInt (s : String) : Option Int := (normNum s.toList).bind (Lmp.signed Lmp.readDigits)
 
 /-- raw values of the LAST occurrence of an option -/
 def lastOf (opts : List (OptId × List String)) (id : OptId) : Option (List String) :=
